@@ -285,10 +285,18 @@ func RunSeq(r *report.Report, name string, depth int) *SeqSummary {
 			jobs = append(jobs, seqArg{Spec: name, Path: p, Only: -1})
 		}
 		var next [][]fsx.Op
-		results := par.Map("seq.expand", jobs, par.Options{}, nil)
+		results := par.Map("seq.expand", jobs, par.Options{Deadline: Deadline}, nil)
 		newStates := 0
 		for i, res := range results {
 			path := frontier[i]
+			if res.Skipped {
+				if sum.Complete {
+					r.Note("search %s: level %d not completed (time budget)", name, level)
+				}
+				sum.Complete = false
+				r.Exhaustive = false
+				continue
+			}
 			if res.Crashed || res.Err != "" {
 				r.Violate(report.Violation{Property: spec.Prop, Sig: "worker-died|" + name, Detail: "history prefix: " + fsx.Hist(path) + "\n" + res.Err + tail(res.Stderr, 3000),
 					Replay: map[string]interface{}{"job": "seq.expand", "arg": jobs[i]}})
